@@ -321,7 +321,8 @@ func c15Uncanon(text string) (*poly.Sequence, error) {
 }
 
 func c15Text(b []byte) string {
-	if utf8.Valid(b) {
+	// raw NUL bytes do not go through the line protocol's readers
+	if utf8.Valid(b) && !strings.Contains(string(b), "\x00") {
 		return "ok:" + string(b)
 	}
 	return "okx:" + hex.EncodeToString(b)
@@ -409,6 +410,12 @@ func init() {
 		}
 		return []string{c}, nil
 	})
+	// c15conv gbk|gff text|hex <file>: every step is guarded on its own, so that the reply says WHERE
+	// something failed: a parser (or direct writer) that rejects the generated file is not a statement
+	// about JSON; anything that fails after that is.  Reply fields:
+	//   parse status, canon(p), Build(p), json.Marshal(p), canon(polyjson.Parse(json)), Build(that),
+	//   GetSequence of p's features, of the parsed features, Build(polyjson.Read(polyjson.Write(p))),
+	//   Build(json.Unmarshal(json.MarshalIndent(p)))           — failed steps read "!panic" / "!err"
 	runner.Register("c15conv", func(a []string) ([]string, error) {
 		var parse func([]byte) poly.Sequence
 		var build func(poly.Sequence) []byte
@@ -420,37 +427,62 @@ func init() {
 		default:
 			return nil, fmt.Errorf("format %q", a[0])
 		}
-		p := parse([]byte(a[1]))
-		cp, err := c15Canon(p)
-		if err != nil {
-			return nil, err
+		file := []byte(a[2])
+		if a[1] == "hex" {
+			b, err := hex.DecodeString(a[2])
+			if err != nil {
+				return nil, err
+			}
+			file = b
 		}
-		direct := c15Text(build(p))
-		jtext, err := json.Marshal(p)
-		if err != nil {
-			return nil, err
+		step := func(f func() (string, error)) (res string) {
+			defer func() {
+				if p := recover(); p != nil {
+					res = "!panic"
+				}
+			}()
+			r, err := f()
+			if err != nil {
+				return "!err"
+			}
+			return r
 		}
-		rt := polyjson.Parse(jtext)
-		crt, err := c15Canon(rt)
-		if err != nil {
-			return nil, err
+		var p poly.Sequence
+		if st := step(func() (string, error) { p = parse(file); return "ok", nil }); st != "ok" {
+			return []string{st}, nil
 		}
-		via := c15Text(build(rt))
+		cp := step(func() (string, error) { return c15Canon(p) })
+		direct := step(func() (string, error) { return c15Text(build(p)), nil })
+		var jtext []byte
+		js := step(func() (string, error) {
+			var err error
+			jtext, err = json.Marshal(p)
+			return string(jtext), err
+		})
+		var rt poly.Sequence
+		crt := step(func() (string, error) { rt = polyjson.Parse(jtext); return c15Canon(rt) })
+		via := step(func() (string, error) { return c15Text(build(rt)), nil })
+		gsp := step(func() (string, error) { return c15GetSeqs(p), nil })
+		gsrt := step(func() (string, error) { return c15GetSeqs(rt), nil })
 		// the two paths of `poly convert`: files (polyjson.Write, polyjson.Read) and pipes
 		// (json.MarshalIndent, plain json.Unmarshal without re-linking)
-		path := c15TempFile()
-		defer os.Remove(path)
-		polyjson.Write(p, path)
-		viaFile := c15Text(build(polyjson.Read(path)))
-		itext, err := json.MarshalIndent(p, "", " ")
-		if err != nil {
-			return nil, err
-		}
-		var piped poly.Sequence
-		if err := json.Unmarshal(itext, &piped); err != nil {
-			return nil, err
-		}
-		viaPipe := c15Text(build(piped))
-		return []string{cp, string(jtext), crt, direct, via, c15GetSeqs(p), c15GetSeqs(rt), viaFile, viaPipe}, nil
+		viaFile := step(func() (string, error) {
+			path := c15TempFile()
+			defer os.Remove(path)
+			polyjson.Write(p, path)
+			return c15Text(build(polyjson.Read(path))), nil
+		})
+		viaPipe := step(func() (string, error) {
+			itext, err := json.MarshalIndent(p, "", " ")
+			if err != nil {
+				return "", err
+			}
+			var piped poly.Sequence
+			if err := json.Unmarshal(itext, &piped); err != nil {
+				return "", err
+			}
+			return c15Text(build(piped)), nil
+		})
+		return []string{"ok", cp, direct, js, crt, via, gsp, gsrt, viaFile, viaPipe}, nil
 	})
 }
